@@ -53,6 +53,18 @@ CLAIMED = {
  "C06": ("fault_enumeration", "store-call fault enumeration over recorded sequential histories; answers compared with queries on this and a fresh engine",
          "Every single flush-path store-call position of each explored history (CreateFile, every Write, Close pre- and post-effect, Update) is failed in turn, then every cleanup call (Abort/TombstoneFile/Close) the failure provoked, plus PRNG pairs; after every Flush and at the end: nil answer => rows visible exactly once on this and a fresh engine, error answer => never visible, unmarshalable batch => error and no trace, no batch unanswered or answered twice.",
          "Exhaustive over single positions of the explored histories; histories themselves are sampled. MetaStore.Update atomic (MemoryMetaStore behind the wrapper).", "6/C06"),
+ "C07": ("exploration", "gated-store workload + monotone len() monitor over never-consumed buffered done channels + visibility query at every Flush return, with the race detector",
+         "A flush-path store call is held at a gate while clients keep sending batches and Flush calls; a polling monitor over the buffered done channels (monotone state) and a check at every Flush return require that whenever a batch is answered nil or Flush returns nil, every non-empty batch accepted earlier is already answered, and those answered nil are visible to a query.",
+         "Order = real-time precedence on the harness's logical clock; empty batches are not subjects.", "6/C07"),
+ "C08": ("exploration", "wedged-store/abandoned-channel workloads x context kinds (incl. a foreign context with late AfterFunc) with store-call log and stop.flagged hook, under the race detector",
+         "Stop is called while a flush is held at a ctx-ignoring gate and/or done channels are abandoned: callers starting after the stop.flagged hook get ErrEngineStopped; Stop returns on its own (the gate stays shut until then or deadline + 8 s); after a deadline error no CreateFile starts (store log ticks); after unwedging, workers exit and every waiter with capacity has exactly one value.",
+         "A flush already inside a store call when the deadline fires may finish. The only wall-clock threshold is 8 s beyond deadlines of 60-250 ms.", "6/C08"),
+ "C09": ("exploration", "accepted-minus-answered gauge under a stalled (gated) store, with the race detector",
+         "With the store shut at a gate and producers offering 20x the bound, the number of accepted-but-unanswered batches never exceeds IngestBufferSize + 4*ceil(trigger/batchRows) + 2 and saturated IngestRows calls end with their context error.",
+         "Only the row-count trigger active so a flush's worth of batches is well defined.", "6/C09"),
+ "C10": ("exploration", "harness-side buffer model (rows, bytes, per-partition) predicting limit-triggered flushes; time-trigger cases with thresholds far from both behaviours",
+         "A sequential client ingests without Flush/Stop; whenever the harness's model of the buffers says a configured limit was reached, everything buffered must be answered with no further input; with only MaxBufferedTime active a batch must be answered on its own. Includes batches accepted before Start.",
+         "Verdict threshold = expected instant + 10 s (correct ~0.1 s, broken = never).", "6/C10"),
 }
 
 NOT_YET = "check not built yet in this session (design in DESIGN.md section 6); not claimed until its monitor exists and is silent on the unchanged tree"
